@@ -1,4 +1,5 @@
 import Sismic.Proofs.Queue
+import Sismic.Proofs.QueueInv
 /-!
 # Property C05 — event queues: one event per step, internal first, FIFO, delays respected
 
@@ -74,7 +75,47 @@ theorem due_event_is_selected (st : IState σ) (hs : QSorted st.intQ) (d : Int) 
     have h0 : d0 ≤ st.time := Int.le_trans this hd
     exact ⟨e0, by simp [h0]⟩
 
+variable {ω : Type} (env : Env σ ω)
+
+/-- **What `execute_once` does to the queues, whatever it returns or raises** (listeners that do
+    not raise): both queues stay ordered by due time; at most one entry is consumed and it was due
+    (`due ≤ clock`); the internal queue afterwards plus what was consumed from it is the internal
+    queue before plus one entry `(clock + delay, e)` for each internal event in `_sent_events`;
+    the external queue changes only by the consumption of its head and by what listeners queue
+    (nothing, when no listener is attached).  Nothing is lost, duplicated or invented. -/
+theorem step_conserves_events (hq : Quiet env) (clock : Int) (rs : RS σ ω) :
+    let rs' := (executeOnce env clock rs).2
+    rs'.st.time = clock ∧ rs'.st.listeners = rs.st.listeners ∧
+    (QSorted rs.st.intQ → QSorted rs'.st.intQ) ∧ (QSorted rs.st.extQ → QSorted rs'.st.extQ) ∧
+    ∃ added pi pe,
+      (rs'.st.intQ ++ pi).Perm (rs.st.intQ ++ entriesOf clock rs'.st.sentEvents) ∧
+      (rs'.st.extQ ++ pe).Perm (rs.st.extQ ++ added) ∧ (rs.st.listeners = [] → added = []) ∧
+      (pi ++ pe).length ≤ 1 ∧ ∀ p ∈ pi ++ pe, p.1 ≤ clock :=
+  executeOnce_queues env hq clock rs
+
+/-- **Every interleaving of `queue()` and `execute_once` calls** on an interpreter nothing is
+    attached to: the queues stay ordered (so `head_is_due_first`, `due_event_is_selected` and the
+    FIFO reading of `insert_position` apply in every reachable state), and the entries pending at
+    the end together with the consumed ones — at most one per `execute_once` — are exactly the
+    entries pending at the start together with one entry per `queue()` call and one per internal
+    event sent.  (`pushed` lists those entries with their due times: time of the call + delay.) -/
+theorem history_conserves_events (hq : Quiet env) (ops : List QOp) (rs : RS σ ω) (hl : rs.st.listeners = []) :
+    (QSorted rs.st.intQ → QSorted (qrun env rs ops).st.intQ) ∧
+    (QSorted rs.st.extQ → QSorted (qrun env rs ops).st.extQ) ∧
+    ∃ consumed, consumed.length ≤ execCount ops ∧
+      (((qrun env rs ops).st.intQ ++ (qrun env rs ops).st.extQ) ++ consumed).Perm
+        ((rs.st.intQ ++ rs.st.extQ) ++ pushed env rs ops) :=
+  (qrun_conserves env hq ops rs hl).2
+
+/-- a fresh interpreter has ordered (empty) queues: the invariant is established -/
+theorem fresh_queues_ordered (st : IState σ) (hi : st.intQ = []) (he : st.extQ = []) :
+    QSorted st.intQ ∧ QSorted st.extQ := by
+  rw [hi, he]; exact ⟨List.Pairwise.nil, List.Pairwise.nil⟩
+
 /-! non-vacuity -/
+example (ch : Chart) (E : Evaluator σ) :
+    Quiet ({ chart := ch, E := E, deliver := fun _ _ _ w => (.ok (), w, []) } : Env σ Unit) := fun _ _ _ _ => rfl
+
 example : (queueInsert 2 { name := "c" } [(1, { name := "a" }), (2, { name := "b" }), (3, { name := "d" })]).map
     (fun p => p.2.name) = ["a", "b", "c", "d"] := by decide
 
